@@ -288,7 +288,18 @@ impl AdvancedRangeCoalescer {
                         }
                     }
 
-                    // Can't coalesce, push current and start new
+                    // Can't coalesce. A range inside the running range (a duplicate of, or nested
+                    // in, a request longer than max_range_size) is already planned; a range that
+                    // covers the running range replaces it. Neither is fetched twice.
+                    if range.end <= current.end {
+                        continue;
+                    }
+                    if range.start == current.start {
+                        current_range = Some(range);
+                        continue;
+                    }
+
+                    // Push current and start new
                     coalesced.push(current);
                     current_range = Some(range);
                 }
